@@ -17,6 +17,16 @@ structure Cfg where
   will : Option Will
   deriving Repr, Inhabited
 
+/-- Ghost (not in the code, never printed): one record of the inbound log of the current connection —
+a packet handed to `handle_packet` together with the control actions (acknowledgements) that its
+handling appended to the control queue; the record with `pkt = none` is written by a successful
+CONNACK and lists the control actions that were queued at that moment (left over from earlier
+connections). -/
+structure InRec where
+  pkt : Option Recv
+  acks : List ControlAction
+  deriving Repr, DecidableEq, Inhabited
+
 /-- `Session<'buf>`. -/
 structure Session where
   clientId : Bytes
@@ -27,6 +37,11 @@ structure Session where
   auth : Option Auth
   expiry : Nat
   downgrade : Bool
+  /-- Ghost: the inbound log of the current connection, restarted by every accepted CONNACK. -/
+  inlog : List InRec := []
+  /-- Ghost: the value of the release-serial counter (`Outbound.nextRser`) when the CONNACK of the current
+  connection was accepted: release entries with a serial from here on were created on this connection. -/
+  rmark : Nat := 0
   deriving Repr, Inhabited
 
 def Session.new (c : Cfg) : Session :=
@@ -104,7 +119,7 @@ to. A retained packet is named by the ghost serial of its entry (`RetainedPacket
 packet identifier. -/
 inductive Tag where
   | control (a : ControlAction)
-  | release (id rc : Nat)
+  | release (rser pser id rc : Nat)
   | retained (ser id : Nat)
   /-- `set_written` was called for an entry that is not in its queue (does not happen). -/
   | unknown
